@@ -4,7 +4,7 @@
 //  `cargo kani playback` in dev and release profiles; Kani stubs are NOT applied natively.)
 /// Test generated for harness `storage::free_space::verif_kani::c06_release_step_n2` 
 ///
-/// Check for `cover`: "release that merges both neighbours"
+/// Check for `assertion`: "assertion failed: after.free_b == was_free && after.blocks == blocks && after.count == n"
 ///
 /// # Warning
 ///
@@ -18,26 +18,26 @@
 /// logic.
 
 #[test]
-fn kani_concrete_playback_c06_release_step_n2_2215516055431575084() {
+fn kani_concrete_playback_c06_release_step_n2_11727038916462231294() {
     let concrete_vals: Vec<Vec<u8>> = vec![
         // 268435456ul
         vec![0, 0, 0, 16, 0, 0, 0, 0],
         // 2ul
         vec![2, 0, 0, 0, 0, 0, 0, 0],
-        // 69636ul
-        vec![4, 16, 1, 0, 0, 0, 0, 0],
-        // 6141948ul
-        vec![252, 183, 93, 0, 0, 0, 0, 0],
-        // 218103808ul
-        vec![0, 0, 0, 13, 0, 0, 0, 0],
-        // 1ul
-        vec![1, 0, 0, 0, 0, 0, 0, 0],
-        // 6211584ul
-        vec![0, 200, 94, 0, 0, 0, 0, 0],
-        // 211892224ul
-        vec![0, 56, 161, 12, 0, 0, 0, 0],
-        // 728ul
-        vec![216, 2, 0, 0, 0, 0, 0, 0],
+        // 32768ul
+        vec![0, 128, 0, 0, 0, 0, 0, 0],
+        // 4ul
+        vec![4, 0, 0, 0, 0, 0, 0, 0],
+        // 32773ul
+        vec![5, 128, 0, 0, 0, 0, 0, 0],
+        // 268402683ul
+        vec![251, 127, 255, 15, 0, 0, 0, 0],
+        // 32772ul
+        vec![4, 128, 0, 0, 0, 0, 0, 0],
+        // 268173311ul
+        vec![255, 255, 251, 15, 0, 0, 0, 0],
+        // 33554431ul
+        vec![255, 255, 255, 1, 0, 0, 0, 0],
     ];
     kani::concrete_playback_run(concrete_vals, c06_release_step_n2);
 }
